@@ -19,10 +19,17 @@ RULE = ('random balanced reactions (C05 generator) over 15 chemicals with known 
         'index/iteration/.reactions) taken before/between/after updates of the conversions (set.X = list/array/scalar, set.X[i]/[a:b] writes, set.X *= k, set.X = set.X, item.X = x, item *= k, item /= k, '
         'slice.X = ..., slice.X[j], slice[j].X, slice.X *= k, system.X = [...], Reaction.X / *= / /=) and snapshots (copy, re-based copy, basis setter on a copy, item copy, k*r, r*k, r/k, slice copy) '
         'taken before later updates: every handle reports dH with the conversion in force, every snapshot with the conversion it was made with; the set / an earlier item / a slice / a system part '
-        'is then applied isothermally (formation-enthalpy change = sum of the handles\' dH x reactant seen) or adiabatically with Q. non-trivial = X>0, reactant fed, >=3 species; distinct = hash of the case')
+        'is then applied isothermally (formation-enthalpy change = sum of the handles\' dH x reactant seen) or adiabatically with Q. non-trivial = X>0, reactant fed, >=3 species; distinct = hash of the case. Oracle strengthening: every adiabatic call is also judged on the composition it leaves (dense model of the reaction, 1e-11) and on the sign and size of the temperature change (heat to absorb from the harness-side sum(dn*Hf), Q and the property models of a twin stream that no reaction code touches, over a heat capacity between the two end values +-3 %); closure bound 2e-6 K x C (twice the step tolerance of the T solver); InfeasibleRegion is a refusal only when the dense model finds a negative flow, a T-solve raise / an outlet outside 200-2500 K only when the harness cannot see the outlet within [max(250, T0-150), T0+150] K (enthalpy to carry against the twin stream at the two edges); the isothermal formation-enthalpy change is compared both with the library-reported dH and with the harness formula, to 1e-10 of the heat + 1e-13 of sum|n Hf|; a quarter of the adiabatic cases carry lean inerts (C of the size of the heat balanced); dH of the members of the parts of a system against the formula')
 MIN_NONTRIVIAL = {'quick': 300, 'thorough': 10000}
 ASSUMPTIONS = ['heats of formation, Hvap(298.15) and Hfus are read from the library chemicals (the check judges the wiring, not the data)',
-               'isothermal clause away from the reference state uses the Kirchhoff-corrected identity (DESIGN C06)']
+               'isothermal clause away from the reference state uses the Kirchhoff-corrected identity (DESIGN C06)',
+               'feasibility is the library rule on the final array (sum of negative entries below -1e-12 in basis units) evaluated on the dense model; cases the model finds infeasible are not judged here (C05 judges them)',
+               'the estimate of the outlet temperature reads H and C of a twin stream (property models of the library, no reaction code); the mean heat capacity over the temperature change is taken to lie between the end values +-3 % (held with 0 % on 5800 sampled cases)']
+T_BRACKET = 0.03          # margin on the two end values of the heat capacity between which the mean heat capacity of the temperature change must lie
+HNET_TOL = 2e-11          # relative to |Hnet|: (Hnet1 - Hnet0) - (H1 - H0) - sum(dn*Hf)
+# round numbers of the size of the heats of formation [kJ/kmol] - used by the generator only (to size lean cases), never by an oracle
+HF_ROUND = {'H2': 0., 'O2': 0., 'N2': 0., 'Water': -286e3, 'CO': -110e3, 'CO2': -394e3, 'CH4': -75e3, 'Methanol': -239e3, 'Ethanol': -278e3, 'AceticAcid': -484e3, 'Ethylene': 52e3,
+            'Propane': -105e3, 'Glucose': -1270e3, 'Glycerol': -669e3, 'Acetone': -248e3, 'EthylAcetate': -479e3}
 GAS_REF = ('H2', 'O2', 'N2', 'CO', 'CO2', 'CH4', 'Ethylene', 'Propane')
 LIQ_REF = ('Water', 'Methanol', 'Ethanol', 'AceticAcid', 'Glycerol', 'Acetone', 'EthylAcetate')
 NOGLU = tuple(i for i in R.IDS if i != 'Glucose')
@@ -32,6 +39,8 @@ def required(tier):
     return ['dH', 'dH:tagged', 'dH:wt', 'isothermal', 'isothermal-literal', 'adiabatic', 'adiabatic:Q', 'adiabatic:no-conversion+Q', 'dH:set-item', 'comb:parallel', 'comb:series', 'comb:system',
             'dH:X=0', 'dH:solid-phase', 'dH:solid-reference', 'dH:rebased', 'isothermal:set-dH-times-fed', 'feed:sparse', 'adiabatic:Q-large', 'adiabatic:Q-keyword', 'adiabatic:Q=0-explicit',
             'stream:other-package',
+            'adiabatic:composition-judged', 'adiabatic-composition', 'adiabatic:outlet-T-judged', 'adiabatic-T', 'adiabatic:lean-inerts', 'isothermal:model-dH-times-fed', 'hist:iso:model-dH-times-fed',
+            'dH:system-member',
             'hist', 'hist:dH', 'hist:fresh-after-update', 'hist:handle-before-update', 'hist:handle-after-update', 'hist:set-assign', 'hist:subset-assign', 'hist:subset-route', 'hist:item-route', 'hist:system-assign',
             'hist:snapshot', 'hist:snapshot-source-updated', 'hist:iso', 'hist:iso:top', 'hist:iso:item', 'hist:iso:subset', 'hist:iso:part', 'hist:adiabatic', 'hist:apply-held-subset',
             'hist:handles:getitem', 'hist:handles:iter', 'hist:handles:neg-index', 'hist:handles:subset-item', 'hist:handles:self',
@@ -109,7 +118,55 @@ def gen_case(rng):
             case['Q'] = round(ntot * (40. * frac_g + 100. * (1 - frac_g)) * rng.uniform(-100, 100), 3); case['Qlarge'] = True
         case['Qform'] = rng.choice(['positional', 'positional', 'keyword', 'explicit'])      # explicit: Q passed even when it is 0
     if kind in ('iso', 'adiabatic') and rng.random() < 0.2: case['foreign'] = True         # the stream lives on another property package than the reaction
+    if kind == 'adiabatic': make_lean(case)
     return case
+
+
+def make_lean(case):
+    """a quarter of the adiabatic cases carry lean inerts (flows 10^U(0,1) instead of 10^U(2.5,3.5)): the heat capacity of the stream is then of the size of the heat being
+    balanced, so that the closure bound (a multiple of C) resolves a small error of the heat of reaction or of Q. Co-reactants are topped up to what the dense model consumes,
+    the reactants are scaled so that the reaction alone moves T by at most ~60 K and Q is worth 0.1-50 K. The draws come from a generator seeded by the case itself:
+    the stream of the workload's generator (and with it every other case) is what it was before this addition."""
+    import random
+    from vt.workloads.c05 import model as dense
+    sub = random.Random(case_hash(case))
+    if sub.random() >= 0.25: return
+    flat = flat_members(case)
+    reactants = {m['reactant'] for m in flat}
+    flows = case['flows']
+    for i in flows:
+        if i not in reactants and flows[i]: flows[i] = round(10 ** sub.uniform(0, 1), 4)
+    key = (lambda i: (case['phmap'][i], i)) if case['tagged'] else (lambda i: i)
+    def shortfall():
+        fl0 = {key(i): v for i, v in flows.items() if v}
+        fl = fl0; worst = {}
+        groups = [(case['comb'], case['members'])] if case['comb'] != 'system' else [(m['k'], m['rx']) for m in case['members']]
+        for k_, ds in groups:
+            steps = [ds] if k_ == 'parallel' else [[d] for d in ds]
+            for st in steps:
+                fl = dense({'comb': 'parallel', 'members': st}, fl)
+                for k, v in fl.items():
+                    if v < worst.get(k, 0.0): worst[k] = v
+        return worst, fl0, fl
+    for _ in range(4):
+        worst, fl0, fl = shortfall()
+        if not worst: break
+        for k, v in worst.items():
+            i = k[1] if case['tagged'] else k
+            if i not in reactants: flows[i] = round(flows[i] - v * sub.uniform(1.2, 3), 4)
+    # size of the reaction heat against the heat capacity (estimates: 40 / 100 kJ/kmol/K for gas / liquid, heats of formation from a fixed table of round numbers)
+    worst, fl0, fl = shortfall()
+    def cest():
+        return sum(v * (40. if ((case['phmap'][i] if case['tagged'] else case['phase']) == 'g') else 100.) for i, v in flows.items())
+    dHf = sum((fl.get(k, 0.0) - fl0.get(k, 0.0)) * HF_ROUND[k[1] if case['tagged'] else k] for k in set(fl) | set(fl0))
+    C = cest()
+    if abs(dHf) > 60. * C:
+        f = 60. * C / abs(dHf)
+        for i in reactants: flows[i] = round(flows[i] * f, 6)
+        C = cest()
+    if case.get('Qlarge'): case['Q'] = round(C * sub.uniform(-100, 100), 3)
+    elif case['Q']: case['Q'] = round((1 if case['Q'] > 0 else -1) * C * 10 ** sub.uniform(-1, 1.7), 3)
+    case['lean'] = True
 
 
 def latent(chem, phase):
@@ -153,6 +210,153 @@ def mol_by_id(s):
     return out
 
 
+def mol_by_key(s, tagged):
+    """molar flows of the real stream in the keying of the dense model: ID (single phase) or (phase, ID) (phase-tagged MultiStream)."""
+    if not tagged: return mol_by_id(s)
+    out = {}
+    data = s.imol.data
+    for ph, r in zip(s.phases, data.rows):
+        for j, v in r.dct.items(): out[(ph, s.chemicals.IDs[j])] = out.get((ph, s.chemicals.IDs[j]), 0.0) + v
+    return out
+
+
+def flat_members(mcase):
+    return mcase['members'] if mcase['comb'] != 'system' else [r for m in mcase['members'] for r in m['rx']]
+
+
+def feed_keyed(case):
+    key = (lambda i: (case['phmap'][i], i)) if case['tagged'] else (lambda i: i)
+    return {key(i): v for i, v in case['flows'].items() if v}
+
+
+def predict(mcase, fl0, ch):
+    """the dense model's outlet flows of the applied object and the library's feasibility measure on them: the sum of the negative entries of the
+    final array in the units of the reaction basis (mol, or mass for wt) - Reaction.__call__ raises InfeasibleRegion when it is below -1e-12."""
+    from vt.workloads.c05 import model as dense
+    expm = dense(mcase, fl0)
+    wt = flat_members(mcase)[0]['basis'] == 'wt'
+    neg = sum(v * (ch[k[1] if isinstance(k, tuple) else k].MW if wt else 1.0) for k, v in expm.items() if v < 0)
+    return expm, neg
+
+
+def twin_stream(case, th, fl):
+    """a stream of the case's kind, package, T and P carrying the flows of the dense model (never passed to reaction code: only its property models are read)."""
+    if case.get('foreign'): th = R.thermo(perm=True)
+    if case['tagged']:
+        s = tmo.MultiStream(None, phases=('g', 'l'), T=case['T'], P=case['P'], thermo=th)
+        for (ph, i), v in fl.items():
+            if v > 0: s.imol[ph, i] = v
+    else:
+        s = tmo.Stream(None, phase=case['phase'], T=case['T'], P=case['P'], thermo=th)
+        for i, v in fl.items():
+            if v > 0: s.imol[i] = v
+    return s
+
+
+TSOLVE_TYPES = (RuntimeError, ValueError, FloatingPointError, ZeroDivisionError, OverflowError)
+TSOLVE_WORDS = ('extrapolate', 'Negative temperature', 'temperature', 'root could not be solved', 'divide', 'overflow', 'invalid value')
+
+
+def judge_infeasible(rec, clause, suffix, neg):
+    """InfeasibleRegion was raised: a refusal only when the dense model finds a negative flow too (the library tests the final array only)."""
+    if neg < -1e-13:
+        rec.hit(clause + ':infeasible-model-agrees'); rec.refuse('infeasible (the dense model agrees: a flow would be negative)'); return
+    rec.check(False, clause, 'spurious-infeasible/' + suffix, f'InfeasibleRegion raised although the dense model predicts no negative flow (negative total {neg:.3g} in basis units)')
+
+
+def judge_adiabatic(rec, case, th, ch, s, call, mcase, Q, suffix, where, H0, Hnet0, n0):
+    """everything observed around one adiabatic_reaction call. `call()` performs it on `s`; mcase is the applied object as the dense model sees it.
+    Returns True when the call returned normally and was judged."""
+    T0 = case['T']; tagged = case['tagged']
+    fl0 = feed_keyed(case)
+    expm, neg = predict(mcase, fl0, ch)
+    # the outlet temperature as the harness estimates it from its own quantities: formation enthalpies of the model's composition change (chemical data), the heat input,
+    # and the sensible enthalpy / heat capacity the property models give for the model's outlet composition at the inlet temperature (a twin stream that no reaction code touches)
+    est = None
+    if neg >= -1e-13:
+        try:
+            tw = twin_stream(case, th, expm)
+            Hiso = tw.H; C0m = tw.C
+            dHf_ind = sum((expm.get(k, 0.0) - fl0.get(k, 0.0)) * ch[k[1] if tagged else k].Hf for k in set(expm) | set(fl0))
+            needed = (H0 - Hiso) + Q - dHf_ind
+            if C0m > 0 and needed == needed: est = (needed, C0m, needed / C0m)
+        except Exception as e:
+            rec.exception('adiabatic', e, what=f'{where}: reading H/C of a twin stream with the model outlet composition raised {type(e).__name__}: {str(e)[:200]}'); return False
+    if est is None and neg >= -1e-13: rec.hit('adiabatic:no-estimate')
+    def inside():
+        """True when the harness can see that the outlet temperature lies within [max(250, T0 - 150), T0 + 150] K: the enthalpy the outlet must carry lies between the
+        enthalpies the property models give the model composition at the two edges (H rises with T; a NaN or a model failure at an edge decides 'not inside')."""
+        if est is None: return False
+        try:
+            target = Hiso + est[0]
+            tw.T = max(250., T0 - 150.); Hlo = tw.H
+            tw.T = T0 + 150.; Hhi = tw.H
+            tw.T = T0
+            return bool(Hlo <= target <= Hhi)
+        except Exception:
+            return False
+    try:
+        call()
+    except InfeasibleRegion:
+        judge_infeasible(rec, 'adiabatic', suffix, neg); return False
+    except Exception as e:
+        # the temperature solve left the range of the property models (the quantifier takes only heat inputs for which the outlet temperature stays inside it):
+        # granted only when the harness' own estimate of the outlet temperature is far from the inlet or outside 250-1500 K
+        if isinstance(e, TSOLVE_TYPES) and any(w in str(e) for w in TSOLVE_WORDS):
+            if neg < -1e-13: rec.refuse('infeasible conversion: the T solve raised before/instead of InfeasibleRegion (not judged)'); return False
+            if not inside():
+                rec.hit('adiabatic:T-solve-refused-outside-range'); rec.refuse('outlet temperature outside the property models (the T solve raised; the harness estimate agrees)'); return False
+            rec.check(False, 'adiabatic', 'T-solve-failed-inside-range/raised/' + suffix,
+                      f'{where}: adiabatic_reaction raised {type(e).__name__}: {str(e)[:160]} although the harness estimates the outlet at {T0 + est[2]:.2f} K (inlet {T0} K, heat to absorb {est[0]:.6g} kJ/hr, C = {est[1]:.6g} kJ/hr/K)')
+            return False
+        rec.exception('adiabatic', e, what=f'{where}: adiabatic_reaction raised {type(e).__name__}: {str(e)[:200]}'); return False
+    if neg < -1e-13:
+        rec.refuse('the call returned although the dense model finds a negative flow (round-off boundary or infeasible: judged by C05, not here)'); return False
+    T1 = s.T
+    if not (200 < T1 < 2500):
+        if not inside():
+            rec.hit('adiabatic:T-solve-refused-outside-range'); rec.refuse('outlet temperature outside the property models (the harness estimate agrees)'); return False
+        rec.check(False, 'adiabatic', 'T-solve-failed-inside-range/outlet-T/' + suffix,
+                  f'{where}: adiabatic_reaction left T = {T1!r} although the harness estimates the outlet at {T0 + est[2]:.2f} K (inlet {T0} K, heat to absorb {est[0]:.6g} kJ/hr, C = {est[1]:.6g} kJ/hr/K)')
+        return False
+    # the reaction took place: composition against the dense model
+    n1 = mol_by_key(s, tagged)
+    fsc = max([abs(v) for v in fl0.values()] + [abs(v) for v in expm.values()] + [1e-300])
+    worst = 0.0; bad = None
+    for k in set(n1) | set(expm):
+        e_ = max(expm.get(k, 0.0), 0.0); g_ = n1.get(k, 0.0)
+        r_ = abs(g_ - e_) / (abs(e_) + 0.1 * fsc)
+        if r_ > worst or r_ != r_: worst = r_; bad = (k, g_, e_)
+        if r_ != r_: worst = float('inf'); break
+    rec.hit('adiabatic:composition-judged')
+    rec.check(worst <= 1e-11, 'adiabatic-composition', suffix,
+              f'{where}: after adiabatic_reaction the flow of {bad[0] if bad else None} is {bad[1] if bad else None!r} but the dense model of the reaction gives {bad[2] if bad else None!r}', residual=worst)
+    try:
+        Hnet1 = s.Hnet; C1 = s.C
+    except Exception as e:
+        rec.exception('adiabatic', e, what=f'{where}: reading Hnet/C after adiabatic reaction raised {type(e).__name__}: {e}'); return False
+    res = abs(Hnet1 - (Hnet0 + Q))
+    # the library's T solve stops at steps below T_tol = 1e-6 K: two such steps of heat capacity, plus round-off of the two totals
+    rec.check(res <= 2e-6 * C1 + 1e-12 * abs(Hnet0), 'adiabatic', suffix + ('/Q' if Q else ''),
+              f'{where}: Hnet after {Hnet1!r} != Hnet before + Q = {Hnet0 + Q!r} (residual {res:.3g} kJ/hr, C={C1:.4g} kJ/hr/K, T {T0} -> {T1:.3f})', residual=res / max(C1, 1e-300))
+    # sign and size of the temperature change: (heat to absorb) / (mean heat capacity), the mean lying between the values at the two ends
+    if est is not None and C1 > 0:
+        needed, C0m, _ = est
+        phase_kept = tagged or s.phase == case['phase']
+        if not phase_kept: rec.hit('adiabatic:phase-flipped-by-H-setter'); rec.refuse('the enthalpy setter moved the single-phase stream to the other phase (temperature change not judged)')
+        else:
+            Cmin = min(C0m, C1) * (1 - T_BRACKET); Cmax = max(C0m, C1) * (1 + T_BRACKET)
+            eps = 4e-6 + 1e-11 * abs(Hnet0) / Cmin
+            lo, hi = (needed / Cmax, needed / Cmin) if needed >= 0 else (needed / Cmin, needed / Cmax)
+            dT = T1 - T0
+            rec.hit('adiabatic:outlet-T-judged')
+            mid = 2 * needed / (C0m + C1)
+            rec.check(lo - eps <= dT <= hi + eps, 'adiabatic-T', 'outlet/' + suffix,
+                      f'{where}: T changed by {dT!r} K ({T0} -> {T1!r}) but the heat to absorb (Q - sum(dn*Hf) - sensible change at the inlet T = {needed:.6g} kJ/hr) over a heat capacity between '
+                      f'{min(C0m, C1):.6g} and {max(C0m, C1):.6g} kJ/hr/K gives {lo:.6g} .. {hi:.6g} K', residual=abs(dT - mid) / max(abs(mid), 1.0))
+    return True
+
+
 def run_case(case, rec):
     from vt.workloads.c05 import build
     if case.get('kind') == 'hist': return run_hist(case, rec)
@@ -179,6 +383,21 @@ def run_case(case, rec):
             rec.hit('dH:set-item')
             rec.check(okshape and abs(got - exp) <= 1e-11 * scale + 1e-12 * abs(exp), 'dH', 'set-item/' + tag, f'item {k_} of a {case["comb"]} set reports dH={got!r} but X*sum(nu*(Hf+latent)) = {exp!r}',
                       residual=(abs(got - exp) / scale) if okshape else None)
+    if case['comb'] == 'system':
+        # the heat reported by the members of the parts of a system (the references of the isothermal clause below take these values from the library)
+        for a_, m in enumerate(case['members']):
+            stop = False
+            for b_, d in enumerate(m['rx']):
+                try: got = (rx[a_] if m['k'] == 'single' else rx[a_][b_]).dH
+                except Exception as e:
+                    rec.exception('dH', e, what=f'dH of member {b_} of part {a_} ({m["k"]}) of a system raised {type(e).__name__}: {e}'); stop = True; break
+                exp = expected_dH(d, th)
+                scale = max(abs(exp), max(abs(ch[i].Hf) for i in d['st']) * 1e-3, 1e-300)
+                okshape = np.ndim(got) == 0
+                rec.hit('dH:system-member')
+                rec.check(okshape and abs(got - exp) <= 1e-11 * scale + 1e-12 * abs(exp), 'dH', f'system-member/{m["k"]}/{tag}', f'member {b_} of part {a_} ({m["k"]}) of a system reports dH={got!r} but X*sum(nu*(Hf+latent)) = {exp!r}',
+                          residual=(abs(got - exp) / scale) if okshape else None)
+            if stop: break
     if kind == 'dH':
         d = case['members'][0]
         try: got = rx.dH
@@ -215,18 +434,23 @@ def run_case(case, rec):
     except Exception as e:
         rec.exception('stream-H', e, what=f'reading H/Hf/Hnet raised {type(e).__name__}: {e}'); return
     if kind in ('iso', 'literal'):
+        expm, neg = predict(case, feed_keyed(case), ch)
         try:
             rx(s)
         except InfeasibleRegion:
-            rec.refuse('infeasible'); return
+            judge_infeasible(rec, 'isothermal', tag, neg); return
         except Exception as e:
             rec.exception('isothermal', e, what=f'reaction call raised {type(e).__name__}: {e}'); return
+        if neg < -1e-13:
+            rec.refuse('the call returned although the dense model finds a negative flow (round-off boundary or infeasible: judged by C05, not here)'); return
         n1 = mol_by_id(s)
         H1, Hf1, Hnet1 = s.H, s.Hf, s.Hnet
         dHf_model = sum((n1.get(i, 0.0) - n0.get(i, 0.0)) * ch[i].Hf for i in set(n0) | set(n1))
+        # S = sum |n_i Hf_i|: the size of the terms whose round-off the formation-enthalpy change carries (relative 1e-13 of it is far above that round-off)
+        S = sum(max(abs(n0.get(i, 0.0)), abs(n1.get(i, 0.0))) * abs(ch[i].Hf) for i in set(n0) | set(n1))
         scale = max(abs(Hnet0), abs(Hnet1), abs(dHf_model), 1e-300)
         # Hnet = H + Hf on both sides, and the change of Hf is the stoichiometry-weighted formation enthalpy
-        rec.check(abs((Hnet1 - Hnet0) - (H1 - H0) - dHf_model) <= 1e-10 * scale, 'isothermal', f'Hnet-H-Hf/{tag}',
+        rec.check(abs((Hnet1 - Hnet0) - (H1 - H0) - dHf_model) <= HNET_TOL * scale, 'isothermal', f'Hnet-H-Hf/{tag}',
                   f'change of (Hnet - H) = {(Hnet1 - Hnet0) - (H1 - H0)!r} but sum(dn_i*Hf_i) = {dHf_model!r}', residual=abs((Hnet1 - Hnet0) - (H1 - H0) - dHf_model) / scale)
         rec.check(abs(s.T - case['T']) == 0, 'isothermal', f'T-changed/{tag}', f'isothermal reaction changed T {case["T"]} -> {s.T}')
         if case['comb'] == 'single':
@@ -241,12 +465,24 @@ def run_case(case, rec):
                 lat = d['X'] * sum((v / -d['st'][r]) * latent(ch[i], d['ph'][i]) for i, v in d['st'].items())
                 if d['basis'] == 'wt': lat /= ch[r].MW
             exp = (rx.dH - lat) * fed_units
-            rec.check(abs(dHf_model - exp) <= 1e-9 * max(abs(exp), abs(Hnet0), 1e-300), 'isothermal', f'dH-times-fed/{tag}',
-                      f'formation-enthalpy change {dHf_model!r} != (dH - latent)*fed = {exp!r}', residual=abs(dHf_model - exp) / max(abs(exp), abs(Hnet0), 1e-300))
+            den = abs(exp) + 1e-3 * S + 1e-300
+            rec.check(abs(dHf_model - exp) <= 1e-10 * den, 'isothermal', f'dH-times-fed/{tag}',
+                      f'formation-enthalpy change {dHf_model!r} != (dH - latent)*fed = {exp!r}', residual=abs(dHf_model - exp) / den)
+            # the same with the heat of reaction written by the harness (heats of formation and latent heats of the chemicals, stoichiometry and conversion of the description)
+            expi = (expected_dH(d, th) - lat) * fed_units
+            deni = abs(expi) + 1e-3 * S + 1e-300
+            rec.hit('isothermal:model-dH-times-fed')
+            rec.check(abs(dHf_model - expi) <= 1e-10 * deni, 'isothermal', f'model-dH-times-fed/{tag}',
+                      f'formation-enthalpy change {dHf_model!r} != (X*sum(nu*(Hf+latent)) - latent)*fed = {expi!r}', residual=abs(dHf_model - expi) / deni)
             if kind == 'literal':
                 lit = rx.dH * fed_units
-                rec.check(abs((Hnet1 - Hnet0) - lit) <= 1e-9 * max(abs(lit), abs(Hnet0)), 'isothermal-literal', tag,
-                          f'at 298.15 K in reference phases: Hnet changed by {Hnet1 - Hnet0!r} but dH*fed = {lit!r}', residual=abs((Hnet1 - Hnet0) - lit) / max(abs(lit), abs(Hnet0), 1e-300))
+                denl = abs(lit) + 1e-2 * max(abs(Hnet0), abs(Hnet1)) + 1e-300
+                rec.check(abs((Hnet1 - Hnet0) - lit) <= 1e-10 * denl, 'isothermal-literal', tag,
+                          f'at 298.15 K in reference phases: Hnet changed by {Hnet1 - Hnet0!r} but dH*fed = {lit!r}', residual=abs((Hnet1 - Hnet0) - lit) / denl)
+                liti = expected_dH(d, th) * fed_units
+                denli = abs(liti) + 1e-2 * max(abs(Hnet0), abs(Hnet1)) + 1e-300
+                rec.check(abs((Hnet1 - Hnet0) - liti) <= 1e-10 * denli, 'isothermal-literal', 'model-dH/' + tag,
+                          f'at 298.15 K in reference phases: Hnet changed by {Hnet1 - Hnet0!r} but X*sum(nu*Hf)*fed = {liti!r}', residual=abs((Hnet1 - Hnet0) - liti) / denli)
         if case['comb'] != 'single':
             # the formation-enthalpy change of a set / system is the sum over its members of (reported heat of the member) x (reactant amount the member sees):
             # the feed for parallel members, the running composition for series members and from one part of a system to the next
@@ -255,7 +491,7 @@ def run_case(case, rec):
             fl = {key(i): v for i, v in case['flows'].items() if v}
             if case['comb'] == 'system': groups = [(m['k'], m['rx'], [rx[a]] if m['k'] == 'single' else [rx[a][b] for b in range(len(m['rx']))]) for a, m in enumerate(case['members'])]
             else: groups = [(case['comb'], case['members'], [rx[b] for b in range(len(case['members']))])]
-            exp = 0.0; okdH = True
+            exp = 0.0; expi = 0.0; okdH = True
             for k_, ds, objs in groups:
                 for d, o in zip(ds, objs):
                     r = d['reactant']
@@ -264,6 +500,7 @@ def run_case(case, rec):
                     if d.get('ph'):
                         lat = d['X'] * sum((v / -d['st'][r]) * latent(ch[i], d['ph'][i]) for i, v in d['st'].items())
                         if d['basis'] == 'wt': lat /= ch[r].MW
+                    expi += (expected_dH(d, th) - lat) * fed
                     try: dh = o.dH
                     except Exception as e:
                         rec.exception('dH', e, what=f'dH of a member raised {type(e).__name__}: {e}'); okdH = False; break
@@ -274,37 +511,27 @@ def run_case(case, rec):
                 if k_ == 'parallel': fl = dense({'comb': 'parallel', 'members': ds}, fl)
             if okdH:
                 rec.hit('isothermal:set-dH-times-fed')
-                den = max(abs(exp), abs(Hnet0), 1e-300)
-                rec.check(abs(dHf_model - exp) <= 1e-9 * den, 'isothermal', f'set-dH-times-fed/{tag}',
+                den = abs(exp) + 1e-3 * S + 1e-300
+                rec.check(abs(dHf_model - exp) <= 1e-10 * den, 'isothermal', f'set-dH-times-fed/{tag}',
                           f'formation-enthalpy change {dHf_model!r} != sum over members of (dH - latent)*fed = {exp!r}', residual=abs(dHf_model - exp) / den)
+                # the same with every member's heat written by the harness (no value of the sum comes from the library)
+                deni = abs(expi) + 1e-3 * S + 1e-300
+                rec.hit('isothermal:model-dH-times-fed')
+                rec.check(abs(dHf_model - expi) <= 1e-10 * deni, 'isothermal', f'set-model-dH-times-fed/{tag}',
+                          f'formation-enthalpy change {dHf_model!r} != sum over members of (X*sum(nu*(Hf+latent)) - latent)*fed = {expi!r}', residual=abs(dHf_model - expi) / deni)
         if case.get('sparse'): rec.hit('feed:sparse')
         if case.get('foreign'): rec.hit('stream:other-package')
         rec.mark_nontrivial(case_hash(case))
         return
     # adiabatic
     Q = case['Q']
-    try:
+    def call():
         qf = case.get('Qform', 'positional')
         if qf == 'keyword' and Q: rx.adiabatic_reaction(s, Q=Q); rec.hit('adiabatic:Q-keyword')
         elif qf == 'explicit' and not Q: rx.adiabatic_reaction(s, 0.0); rec.hit('adiabatic:Q=0-explicit')
         else: rx.adiabatic_reaction(s, Q) if Q else rx.adiabatic_reaction(s)
-    except InfeasibleRegion:
-        rec.refuse('infeasible'); return
-    except Exception as e:
-        # the temperature solve left the range of the property models (the quantifier takes only heat inputs for which the outlet temperature stays inside it)
-        if isinstance(e, (RuntimeError, ValueError, FloatingPointError, ZeroDivisionError, OverflowError)) and any(w in str(e) for w in ('extrapolate', 'Negative temperature', 'temperature', 'root could not be solved', 'divide', 'overflow', 'invalid value')):
-            rec.refuse('outlet temperature outside the property models (the T solve raised)'); return
-        rec.exception('adiabatic', e, what=f'adiabatic_reaction raised {type(e).__name__}: {str(e)[:200]}'); return
-    T1 = s.T
-    if not (200 < T1 < 2500):
-        rec.refuse('outlet temperature outside the property models'); return
-    try:
-        Hnet1 = s.Hnet; C1 = s.C
-    except Exception as e:
-        rec.exception('adiabatic', e, what=f'reading Hnet/C after adiabatic reaction raised {type(e).__name__}: {e}'); return
-    res = abs(Hnet1 - (Hnet0 + Q))
-    rec.check(res <= 1e-5 * C1 + 1e-12 * abs(Hnet0), 'adiabatic', tag + ('/Q' if Q else ''), f'Hnet after {Hnet1!r} != Hnet before + Q = {Hnet0 + Q!r} (residual {res:.3g} kJ/hr, C={C1:.4g} kJ/hr/K, T {case["T"]} -> {T1:.3f})',
-              residual=res / max(C1, 1e-300))
+    if not judge_adiabatic(rec, case, th, ch, s, call, case, Q, tag, 'adiabatic_reaction', H0, Hnet0, n0): return
+    if case.get('lean'): rec.hit('adiabatic:lean-inerts')
     if Q: rec.hit('adiabatic:Q')
     if Q and case.get('Qlarge'): rec.hit('adiabatic:Q-large')
     if case.get('sparse'): rec.hit('feed:sparse')
@@ -650,23 +877,32 @@ def run_hist(case, rec):
     except Exception as e:
         rec.exception('stream-H', e, what=f'reading H/Hf/Hnet raised {type(e).__name__}: {e}'); return
     lastroute = next((pt.route for pt in parts if pt.route), 'none') if comb != 'system' else 'system'
+    # the applied object as the dense model sees it (members with the conversions in force)
+    if len(groups) == 1 and not (via == 'top' and comb == 'system'):
+        mcase = {'comb': groups[0][0], 'members': [d for d, _ in groups[0][1]]}
+    else:
+        mcase = {'comb': 'system', 'members': [{'k': k_, 'rx': [d for d, _ in pairs]} for k_, pairs in groups]}
     if mode == 'iso':
+        expm, neg = predict(mcase, feed_keyed(case), ch)
         try:
             A(s)
         except InfeasibleRegion:
-            rec.refuse('infeasible'); return
+            judge_infeasible(rec, 'isothermal', f'history/{via}/{tag}', neg); return
         except Exception as e:
             rec.exception('isothermal', e, what=f'reaction call ({via}) after a conversion history raised {type(e).__name__}: {e}'); return
+        if neg < -1e-13:
+            rec.refuse('the call returned although the dense model finds a negative flow (round-off boundary or infeasible: judged by C05, not here)'); return
         n1 = mol_by_id(s)
         H1, Hf1, Hnet1 = s.H, s.Hf, s.Hnet
         dHf_model = sum((n1.get(i, 0.0) - n0.get(i, 0.0)) * ch[i].Hf for i in set(n0) | set(n1))
+        S = sum(max(abs(n0.get(i, 0.0)), abs(n1.get(i, 0.0))) * abs(ch[i].Hf) for i in set(n0) | set(n1))
         scale = max(abs(Hnet0), abs(Hnet1), abs(dHf_model), 1e-300)
-        rec.check(abs((Hnet1 - Hnet0) - (H1 - H0) - dHf_model) <= 1e-10 * scale, 'isothermal', f'history/Hnet-H-Hf/{via}/{tag}',
+        rec.check(abs((Hnet1 - Hnet0) - (H1 - H0) - dHf_model) <= HNET_TOL * scale, 'isothermal', f'history/Hnet-H-Hf/{via}/{tag}',
                   f'change of (Hnet - H) = {(Hnet1 - Hnet0) - (H1 - H0)!r} but sum(dn_i*Hf_i) = {dHf_model!r}', residual=abs((Hnet1 - Hnet0) - (H1 - H0) - dHf_model) / scale)
         rec.check(abs(s.T - case['T']) == 0, 'isothermal', f'history/T-changed/{via}/{tag}', f'isothermal reaction changed T {case["T"]} -> {s.T}')
         key = (lambda i: (case['phmap'][i], i)) if case['tagged'] else (lambda i: i)
         fl = {key(i): v for i, v in case['flows'].items() if v}
-        exp = 0.0
+        exp = 0.0; expi = 0.0
         for k_, pairs in groups:
             for d, o in pairs:
                 r = d['reactant']
@@ -675,6 +911,7 @@ def run_hist(case, rec):
                 if d.get('ph'):
                     lat = d['X'] * sum((v / -d['st'][r]) * latent(ch[i], d['ph'][i]) for i, v in d['st'].items())
                     if d['basis'] == 'wt': lat /= ch[r].MW
+                expi += (expected_dH(d, th) - lat) * fed
                 try: dh = o.dH
                 except Exception as e:
                     rec.exception('dH', e, what=f'dH of a member raised {type(e).__name__}: {e}'); return
@@ -682,35 +919,25 @@ def run_hist(case, rec):
                 exp += (dh - lat) * fed
                 if k_ != 'parallel': fl = R.model_apply(fl, d)
             if k_ == 'parallel': fl = dense({'comb': 'parallel', 'members': [d for d, _ in pairs]}, fl)
-        den = max(abs(exp), abs(Hnet0), 1e-300)
+        den = abs(exp) + 1e-3 * S + 1e-300
         rec.hit('hist:iso'); rec.hit('hist:iso:' + via)
-        rec.check(abs(dHf_model - exp) <= 1e-9 * den, 'isothermal', f'history/dH-times-fed/{via}/after-{lastroute}/{tag}',
+        rec.check(abs(dHf_model - exp) <= 1e-10 * den, 'isothermal', f'history/dH-times-fed/{via}/after-{lastroute}/{tag}',
                   f'after the conversion history, reacting with the {via} object: formation-enthalpy change {dHf_model!r} != sum over members of (reported dH - latent)*fed = {exp!r}',
                   residual=abs(dHf_model - exp) / den)
+        deni = abs(expi) + 1e-3 * S + 1e-300
+        rec.hit('hist:iso:model-dH-times-fed')
+        rec.check(abs(dHf_model - expi) <= 1e-10 * deni, 'isothermal', f'history/model-dH-times-fed/{via}/after-{lastroute}/{tag}',
+                  f'after the conversion history, reacting with the {via} object: formation-enthalpy change {dHf_model!r} != sum over members of (X in force * sum(nu*(Hf+latent)) - latent)*fed = {expi!r}',
+                  residual=abs(dHf_model - expi) / deni)
         if case.get('foreign'): rec.hit('stream:other-package')
         return
     Q = final['Q']
-    try:
+    def call():
         if Q and final.get('Qform') == 'keyword': A.adiabatic_reaction(s, Q=Q)
         elif Q: A.adiabatic_reaction(s, Q)
         else: A.adiabatic_reaction(s)
-    except InfeasibleRegion:
-        rec.refuse('infeasible'); return
-    except Exception as e:
-        if isinstance(e, (RuntimeError, ValueError, FloatingPointError, ZeroDivisionError, OverflowError)) and any(w in str(e) for w in ('extrapolate', 'Negative temperature', 'temperature', 'root could not be solved', 'divide', 'overflow', 'invalid value')):
-            rec.refuse('outlet temperature outside the property models (the T solve raised)'); return
-        rec.exception('adiabatic', e, what=f'adiabatic_reaction ({via}) after a conversion history raised {type(e).__name__}: {str(e)[:200]}'); return
-    T1 = s.T
-    if not (200 < T1 < 2500):
-        rec.refuse('outlet temperature outside the property models'); return
-    try:
-        Hnet1 = s.Hnet; C1 = s.C
-    except Exception as e:
-        rec.exception('adiabatic', e, what=f'reading Hnet/C after adiabatic reaction raised {type(e).__name__}: {e}'); return
-    res = abs(Hnet1 - (Hnet0 + Q))
+    if not judge_adiabatic(rec, case, th, ch, s, call, mcase, Q, f'history/{via}/{tag}', f'after the conversion history ({via} object)', H0, Hnet0, n0): return
     rec.hit('hist:adiabatic'); rec.hit('hist:adiabatic:' + via)
-    rec.check(res <= 1e-5 * C1 + 1e-12 * abs(Hnet0), 'adiabatic', f'history/{via}/{tag}' + ('/Q' if Q else ''),
-              f'after the conversion history ({via} object): Hnet after {Hnet1!r} != Hnet before + Q = {Hnet0 + Q!r} (residual {res:.3g} kJ/hr, C={C1:.4g} kJ/hr/K, T {case["T"]} -> {T1:.3f})', residual=res / max(C1, 1e-300))
     if case.get('foreign'): rec.hit('stream:other-package')
 
 
